@@ -335,6 +335,160 @@ def check_clash_loop(ctx, F):
     ctx.rule("ver.clash", 1, floor=1, note="guard of the pairwise version-clash loop: name equality, version intersection, identity exclusion only")
 
 
+# ---- rule witnesses: each validation function interpreted on minimal ill-formed / well-formed instances -------------------------
+class _Hit(Exception):
+    def __init__(self, name):
+        self.name = name
+
+
+_D = "crate::parser::types::definer::"
+_PC = "crate::parser::types::parsed::"
+_PSM = "wow_message_parser::parser::types::parsed::parsed_struct_member::ParsedStructMember::"
+
+
+_ADT_FIELDS = {}
+
+
+def _fill(v):
+    """add the fields the witness does not care about (None) so that a new field in the repository does not break the instance"""
+    if isinstance(v, tuple) and v and v[0] == "struct":
+        if not _ADT_FIELDS:
+            for a in facts("wow_message_parser").all("adt"):
+                if a["kind"] == "Struct" and a["variants"]:
+                    _ADT_FIELDS[a["path"]] = [(f[0], f[1]) for f in a["variants"][0][2]]
+        for f, ty in _ADT_FIELDS.get(v[1], []):
+            dflt = "None" if ty.startswith("std::option::Option") else [] if ty.startswith(("std::vec::Vec", "std::collections::BTreeSet", "std::collections::btree::set::BTreeSet")) else False if ty == "bool" else None
+            if v[2].get(f, 0) is None and dflt is not None:
+                v[2][f] = dflt
+            v[2].setdefault(f, dflt)
+        for k in list(v[2]):
+            v[2][k] = _fill(v[2][k])
+        return v
+    if isinstance(v, tuple) and v and v[0] == "variant" and len(v) > 2:
+        if isinstance(v[2], list):
+            return (v[0], v[1], [_fill(x) for x in v[2]])
+        if isinstance(v[2], dict):
+            return (v[0], v[1], {k: _fill(x) for k, x in v[2].items()})
+    if isinstance(v, list):
+        return [_fill(x) for x in v]
+    return v
+
+
+def _field(name, i, orig):
+    return ("struct", _D + "DefinerField", {"name": name, "value": ("struct", _D + "DefinerValue", {"int": i, "original": orig}), "tags": None})
+
+
+def _definer(fields, kind="Enum"):
+    return ("struct", _D + "Definer", {"name": "T", "definer_ty": ("variant", "wow_message_parser::rust_printer::DefinerType::" + kind), "fields": fields, "basic_type": None,
+                                       "tags": None, "objects_used_in": [], "file_info": None})
+
+
+def _dfn(name, ty=None):
+    return ("variant", _PSM + "Definition", [("struct", _PC + "parsed_struct_member::ParsedStructMemberDefinition",
+                                              {"name": name, "struct_type": ty, "value": None, "verified_value": None, "used_as_size_in": None, "used_in_if": None, "tags": None})])
+
+
+def _ifs(members, else_ifs=(), els=(), eq="Equals", var="x"):
+    E = "crate::parser::types::if_statement::Equation::"
+    equation = ("struct", E + eq, {"values": ["A"]} if eq != "NotEquals" else {"value": "A"})
+    return ("struct", _PC + "parsed_if_statement::ParsedIfStatement", {"variable_name": var, "equation": equation, "members": list(members), "else_ifs": list(else_ifs),
+                                                                        "else_statement_members": list(els), "original_ty": None})
+
+
+def _ifm(*a, **k):
+    return ("variant", _PSM + "IfStatement", [_ifs(*a, **k)])
+
+
+def _opt(members):
+    return ("variant", _PSM + "OptionalStatement", [("struct", _PC + "parsed_optional::ParsedOptionalStatement", {"name": "o", "members": list(members)})])
+
+
+def _cont(members):
+    return ("struct", _PC + "parsed_container::ParsedContainer", {"name": "C", "object_type": None, "members": list(members), "tags": None, "file_info": None})
+
+
+def _tags(world, login):
+    return ("struct", _PC + "parsed_tags::ParsedTags", {"world_versions": list(world), "login_versions": list(login), "description": None, "compressed": None, "comment": None,
+                                                          "display": None, "paste_versions": [], "skip": None, "test": None, "unimplemented": None, "non_network_type": None,
+                                                          "used_in_update_mask": None, "zero_is_always_valid": None})
+
+
+def witness_table():
+    """(rule's error function or None, check function, arguments, extra overrides, description)"""
+    T = []
+    sc = _D + "Definer::self_check"
+    T += [("duplicate_definer_value", sc, [_definer([_field("A", 10, "10"), _field("B", 10, "10")])], {}, "two enumerators with the same value, same spelling"),
+          ("duplicate_definer_value", sc, [_definer([_field("A", 10, "10"), _field("B", 10, "0x0A")])], {}, "two enumerators with the same value spelled 10 and 0x0A"),
+          ("duplicate_definer_value", sc, [_definer([_field("A", 255, "0x00ff"), _field("C", 7, "7"), _field("B", 255, "0x00FF")])], {}, "equal values 0x00ff / 0x00FF, not adjacent"),
+          (None, sc, [_definer([_field("A", 10, "10"), _field("B", 11, "11"), _field("C", 0, "0")])], {}, "distinct values"),
+          (None, sc, [_definer([_field("A", 1, "1"), _field("B", 16, "0x10")])], {}, "distinct values 1 and 0x10")]
+    pd = _PC + "parsed_container::ParsedContainer::self_check"
+    a, b, c = _dfn("a"), _dfn("b"), _dfn("c")
+    T += [("duplicate_field_names", pd, [_cont([a, b, _dfn("a")])], {}, "member name repeated at top level"),
+          ("duplicate_field_names", pd, [_cont([a, _ifm([b, _dfn("a")])])], {}, "member name repeated inside an if arm"),
+          ("duplicate_field_names", pd, [_cont([a, _ifm([b], else_ifs=[_ifs([_dfn("a")])])])], {}, "member name repeated inside an else-if arm"),
+          ("duplicate_field_names", pd, [_cont([a, _ifm([b], els=[_dfn("a")])])], {}, "member name repeated inside the else arm"),
+          ("duplicate_field_names", pd, [_cont([a, _opt([_dfn("a")])])], {}, "member name repeated inside an optional block"),
+          ("duplicate_field_names", pd, [_cont([_ifm([b], els=[_ifm([c], else_ifs=[_ifs([_dfn("b")])])])])], {}, "member name repeated in a nested if"),
+          (None, pd, [_cont([a, _ifm([b], else_ifs=[_ifs([c])], els=[_dfn("d")]), _opt([_dfn("e")])])], {}, "distinct names in every arm")]
+    ident = ("struct", "crate::parser::types::parsed::parsed_ty::ParsedType::Identifier", {"s": "T", "upcast": "None"})
+    ck = "crate::parser::types::objects::conversion::container::check_if_statement_operators"
+    x = _dfn("x", ident)
+    for kind, eq, want in (("Enum", "Equals", None), ("Enum", "NotEquals", None), ("Enum", "BitwiseAnd", "enum_has_bitwise_and"),
+                           ("Flag", "BitwiseAnd", None), ("Flag", "Equals", "flag_used_as_equals_or_not_equals"), ("Flag", "NotEquals", "flag_used_as_equals_or_not_equals")):
+        ov = {"::get_definer": (lambda d: (lambda args: ("Some", d)))(_definer([], kind))}
+        T.append((want, ck, [_cont([x, _ifm([a], eq=eq)]), []], ov, f"`if (x {'&' if eq == 'BitwiseAnd' else '==' if eq == 'Equals' else '!='} A)` on a {kind.lower()} member"))
+        T.append((want, ck, [_cont([x, _opt([_ifm([a], eq=eq)])]), []], ov, f"the same inside an optional block ({kind.lower()}, {eq})"))
+        T.append((want, ck, [_cont([x, _dfn("y", ident), _ifm([a], eq="Equals" if kind == "Enum" else "BitwiseAnd", els=[_ifm([b], eq=eq, var="y")])]), []], ov, f"the same nested in an else arm ({kind.lower()}, {eq})"))
+    it = _PC + "parsed_tags::ParsedTags::into_tags"
+    ov = {"::ObjectTags::from_parsed": lambda args: ("tags-built",), "::into_bool": lambda args: False, "::into_bool_with_default": lambda args: False}
+    T += [("object_has_both_versions", it, [_tags(["w1"], ["l1"]), "T", None, False], ov, "object with world and login versions"),
+          ("object_has_no_versions", it, [_tags([], []), "T", None, False], ov, "object without any version"),
+          (None, it, [_tags(["w1"], []), "T", None, False], ov, "object with world versions only"),
+          (None, it, [_tags([], ["l1"]), "T", None, True], ov, "object with login versions only")]
+    return T
+
+
+def check_witnesses(ctx, FB):
+    from ..minieval import Mini, Panic, Unsupported
+    F = FB["wow_message_parser"]
+    err_names = [fn["name"] for fn in F.all("fn", lambda p: p.startswith("crate::error_printer::") and p.count("::") == 2)]
+
+    def hit(name):
+        def f(_a):
+            raise _Hit(name)
+        return f
+    n = 0
+    for want, fnp, args, extra, desc in witness_table():
+        fn = F.fn(fnp)
+        if fn is None:
+            ctx.violate("rule.witness", f"anchor|{fnp}", f"{fnp} not found (anchor disappeared)")
+            continue
+        n += 1
+        m = Mini(FB, "wow_message_parser")
+        m.overrides = {"::error_printer::" + nm: hit(nm) for nm in err_names}
+        m.overrides.update(extra)
+        got = None
+        try:
+            import copy
+            m.call_fn(fnp, [_fill(a) for a in copy.deepcopy(args)])
+        except _Hit as h:
+            got = h.name
+        except (Unsupported, Panic) as e:
+            ctx.violate("rule.witness", f"{fnp}|shape|{desc}", f"{fnp.split('::')[-2]}::{fnp.split('::')[-1]} on `{desc}`: not interpretable — review ({type(e).__name__}: {e})", fn["file"], fn["line"])
+            continue
+        if got != want:
+            if want is None:
+                msg = f"the well-formed instance `{desc}` is rejected through {got}"
+            elif got is None:
+                msg = f"the ill-formed instance `{desc}` is accepted: {want} (and with it the rule's exit status) is not reached"
+            else:
+                msg = f"the ill-formed instance `{desc}` is reported through {got} instead of {want}: the generator stops with another rule's exit status"
+            ctx.violate("rule.witness", f"{fnp}|{desc}", f"{fnp.split('::')[-2]}::{fnp.split('::')[-1]}: {msg}", fn["file"], fn["line"])
+    ctx.rule("rule.witness", n, floor=30, note="validation functions interpreted on minimal ill-formed and well-formed instances (duplicate enumerator values in different spellings, duplicate member names "
+             "in every nesting position, enum/flag if-operators, version tags): the rule's own error function is reached exactly for the ill-formed ones")
+
+
 def run(ctx):
     FB = {"wow_message_parser": facts("wow_message_parser")}
     F = FB["wow_message_parser"]
@@ -343,6 +497,7 @@ def run(ctx):
     check_versions_rel(ctx, FB)
     check_int_bounds(ctx, FB)
     check_clash_loop(ctx, F)
+    check_witnesses(ctx, FB)
     ctx.assume("that every violation anywhere in a corpus reaches the check of its rule quantifies over input programs and is not decided; the clauses above are necessary conditions")
     ctx.assume("the two-valued component domain is exhaustive because the relations only test components for equality (checked)")
     return "other", EXPLANATION, {}
